@@ -1,10 +1,685 @@
-use crate::sim::Finding;
-use serde_json::Value;
+//! gc-sim (C03 b): the collector alone, driven through its public API with seeded operation
+//! sequences over a small object universe, checked operation by operation against a reachability model.
 
-pub fn replay(_sp: &Value, _trace: bool) -> Vec<Finding> {
-    Vec::new()
+use crate::acc::{Acc, Tier, Violation};
+use crate::rng::{mix, Fold, Rng};
+use crate::shadow;
+use crate::sim::{self, Finding, CTX};
+use nederlang::object::{FromString, FromVec, Object};
+use nederlang::verif::{self, GC};
+use serde_json::{json, Value};
+use std::collections::BTreeSet;
+
+pub const TAG: u64 = 0xC03B;
+pub const PROPERTY: &str = "C03";
+
+pub fn scenarios(tier: Tier) -> u64 {
+    match tier {
+        Tier::Quick => 120_000,
+        Tier::Thorough => 3_000_000,
+    }
 }
 
-pub fn shrink(sp: &Value, _class: &str, _key: &str) -> Value {
-    sp.clone()
+#[derive(Clone, Debug, PartialEq)]
+enum Val {
+    F(f64),
+    S(String),
+    A(Vec<Option<usize>>), // Some(handle index) or None = immediate
+}
+
+#[derive(Clone, Debug, PartialEq)]
+enum Own {
+    Managed,
+    Caller,
+    Released,
+}
+
+struct MObj {
+    val: Val,
+    own: Own,
+}
+
+struct World {
+    gc: Option<GC>,
+    side: GC, // a second collector, used to make caller-owned objects
+    handles: Vec<Object>,
+    model: Vec<MObj>,
+    roots: Vec<usize>,
+    findings: Vec<Finding>,
+    stats_collections: u64,
+    stats_freed: u64,
+    shapes: BTreeSet<u64>,
+}
+
+fn finding(w: &mut World, class: &str, key: &str, detail: String) {
+    if w.findings.len() < 4 {
+        w.findings.push(Finding {
+            class: class.into(),
+            key: key.into(),
+            detail,
+        });
+    }
+}
+
+impl World {
+    fn new() -> World {
+        World {
+            gc: Some(GC::new()),
+            side: GC::new(),
+            handles: Vec::new(),
+            model: Vec::new(),
+            roots: Vec::new(),
+            findings: Vec::new(),
+            stats_collections: 0,
+            stats_freed: 0,
+            shapes: BTreeSet::new(),
+        }
+    }
+
+    fn live(&self) -> Vec<usize> {
+        (0..self.model.len()).filter(|i| self.model[*i].own != Own::Released).collect()
+    }
+
+    fn pick(&self, sel: u64, pred: impl Fn(&MObj) -> bool) -> Option<usize> {
+        let c: Vec<usize> = (0..self.model.len()).filter(|i| pred(&self.model[*i])).collect();
+        if c.is_empty() {
+            None
+        } else {
+            Some(c[(sel % c.len() as u64) as usize])
+        }
+    }
+
+    fn elem_obj(&self, e: &Option<usize>, imm: i64) -> Object {
+        match e {
+            Some(h) => self.handles[*h],
+            None => Object::int(imm as isize),
+        }
+    }
+
+    /// Model of `GC::untrace`: removes the object and, recursively through managed arrays, its elements.
+    fn model_untrace(&mut self, h: usize) {
+        if self.model[h].own != Own::Managed {
+            return;
+        }
+        self.model[h].own = Own::Caller;
+        if let Val::A(els) = self.model[h].val.clone() {
+            for e in els.into_iter().flatten() {
+                self.model_untrace(e);
+            }
+        }
+    }
+
+    /// Reachability closure from the roots through every live array.
+    fn model_reachable(&self, roots: &[usize]) -> BTreeSet<usize> {
+        let mut seen = BTreeSet::new();
+        let mut stack: Vec<usize> = roots.to_vec();
+        while let Some(h) = stack.pop() {
+            if self.model[h].own == Own::Released || !seen.insert(h) {
+                continue;
+            }
+            if let Val::A(els) = &self.model[h].val {
+                for e in els.iter().flatten() {
+                    stack.push(*e);
+                }
+            }
+        }
+        seen
+    }
+
+    /// shadow alive set == model alive set, managed list == model managed set, values intact
+    fn check(&mut self, after: &str) {
+        let _g = sim::enter_harness();
+        let sh = shadow::lock();
+        let mut problems: Vec<(String, String, String)> = Vec::new();
+        for i in 0..self.model.len() {
+            let a = verif::address(self.handles[i]);
+            let alive = sh.is_alive(a);
+            let want = self.model[i].own != Own::Released;
+            let kind = match self.model[i].val {
+                Val::F(_) => "float",
+                Val::S(_) => "string",
+                Val::A(_) => "array",
+            };
+            if want && !alive {
+                problems.push((
+                    "reachable-reclaimed".into(),
+                    format!("{}@{}", kind, after),
+                    format!("object h{} ({}, {:?}) is released but the model says it is still {}", i, kind, self.model[i].val, if self.model[i].own == Own::Managed { "reachable from a root" } else { "owned by the caller" }),
+                ));
+                continue;
+            }
+            if !want && alive {
+                problems.push((
+                    "unreachable-retained".into(),
+                    format!("{}@{}", kind, after),
+                    format!("object h{} ({}) is still allocated but the model says it was reclaimed", i, kind),
+                ));
+                continue;
+            }
+            if want {
+                // value intact
+                let o = self.handles[i];
+                let ok = match &self.model[i].val {
+                    Val::F(f) => o.as_f64().to_bits() == f.to_bits(),
+                    Val::S(s) => o.as_str() == s,
+                    Val::A(els) => {
+                        let v = o.as_vec();
+                        v.len() == els.len()
+                            && v.iter().zip(els.iter()).all(|(x, e)| match e {
+                                Some(h) => x.is_heap_allocated() && verif::address(*x) == verif::address(self.handles[*h]),
+                                None => !x.is_heap_allocated(),
+                            })
+                    }
+                };
+                if !ok {
+                    problems.push((
+                        "survivor-changed".into(),
+                        format!("{}@{}", kind, after),
+                        format!("object h{} ({}) no longer holds its value {:?}", i, kind, self.model[i].val),
+                    ));
+                }
+            }
+        }
+        if let Some(gc) = &self.gc {
+            let managed: Vec<usize> = gc.verif_objects().iter().map(|o| verif::address(*o)).collect();
+            let mut set = BTreeSet::new();
+            for a in &managed {
+                if !set.insert(*a) {
+                    problems.push(("managed-list-corrupt".into(), "duplicate".into(), format!("{} is managed twice after {}", sh.describe(*a), after)));
+                }
+            }
+            let want: BTreeSet<usize> = (0..self.model.len())
+                .filter(|i| self.model[*i].own == Own::Managed)
+                .map(|i| verif::address(self.handles[i]))
+                .collect();
+            if set != want {
+                problems.push((
+                    "managed-list-corrupt".into(),
+                    format!("set@{}", after),
+                    format!("collector manages {} object(s), model says {} after {}", set.len(), want.len(), after),
+                ));
+            }
+        }
+        drop(sh);
+        for (c, k, d) in problems {
+            finding(self, &c, &k, d);
+        }
+    }
+}
+
+/// Applies one operation (explicit, self-describing JSON) to the world and the model.
+fn apply(w: &mut World, op: &Value) {
+    let name = op[0].as_str().unwrap_or("");
+    let n = |i: usize| op[i].as_u64().unwrap_or(0);
+    match name {
+        "float" => {
+            let f = op[1].as_f64().unwrap_or(0.5);
+            if let Some(gc) = w.gc.as_mut() {
+                let o = Object::float(f, gc);
+                w.handles.push(o);
+                w.model.push(MObj { val: Val::F(f), own: Own::Managed });
+            }
+        }
+        "str" => {
+            let s = op[1].as_str().unwrap_or("").to_string();
+            if let Some(gc) = w.gc.as_mut() {
+                let o = Object::string(s.as_str(), gc);
+                w.handles.push(o);
+                w.model.push(MObj { val: Val::S(s), own: Own::Managed });
+            }
+        }
+        "arr" => {
+            // elements: selectors into the live handles, or null for an immediate
+            let live = w.live();
+            let mut els: Vec<Option<usize>> = Vec::new();
+            if let Some(a) = op[1].as_array() {
+                for e in a {
+                    match e.as_u64() {
+                        Some(sel) if !live.is_empty() => els.push(Some(live[(sel % live.len() as u64) as usize])),
+                        _ => els.push(None),
+                    }
+                }
+            }
+            // no edges from the new (managed) array to released objects; edges to caller-owned are fine
+            let vec: Vec<Object> = els.iter().enumerate().map(|(i, e)| w.elem_obj(e, i as i64)).collect();
+            if let Some(gc) = w.gc.as_mut() {
+                let o = Object::array(vec, gc);
+                w.handles.push(o);
+                w.model.push(MObj { val: Val::A(els), own: Own::Managed });
+            }
+        }
+        "link" => {
+            // array (live, non-empty) . slot = target; never from a caller-owned array to a managed object
+            let arr = w.pick(n(1), |m| m.own != Own::Released && matches!(&m.val, Val::A(v) if !v.is_empty()));
+            if let Some(a) = arr {
+                let a_own = w.model[a].own.clone();
+                let tgt = w.pick(n(3), |m| m.own != Own::Released && (a_own == Own::Managed || m.own == Own::Caller));
+                if let Some(t) = tgt {
+                    let len = match &w.model[a].val {
+                        Val::A(v) => v.len(),
+                        _ => 0,
+                    };
+                    let slot = (n(2) as usize) % len;
+                    let _g = sim::enter_harness();
+                    let mut h = w.handles[a];
+                    h.as_vec_mut()[slot] = w.handles[t];
+                    if let Val::A(v) = &mut w.model[a].val {
+                        v[slot] = Some(t);
+                    }
+                }
+            }
+        }
+        "unlink" => {
+            let arr = w.pick(n(1), |m| m.own != Own::Released && matches!(&m.val, Val::A(v) if !v.is_empty()));
+            if let Some(a) = arr {
+                let len = match &w.model[a].val {
+                    Val::A(v) => v.len(),
+                    _ => 0,
+                };
+                let slot = (n(2) as usize) % len;
+                let _g = sim::enter_harness();
+                let mut h = w.handles[a];
+                h.as_vec_mut()[slot] = Object::null();
+                if let Val::A(v) = &mut w.model[a].val {
+                    v[slot] = None;
+                }
+            }
+        }
+        "root" => {
+            if let Some(h) = w.pick(n(1), |m| m.own != Own::Released) {
+                w.roots.push(h);
+            }
+        }
+        "unroot" => {
+            if !w.roots.is_empty() {
+                let i = (n(1) as usize) % w.roots.len();
+                w.roots.remove(i);
+            }
+        }
+        "collect" => {
+            if w.gc.is_none() {
+                return;
+            }
+            // roots split into slices (with duplicates) as the pattern says
+            let pattern: Vec<Vec<u64>> = op[1]
+                .as_array()
+                .map(|a| {
+                    a.iter()
+                        .map(|s| s.as_array().map(|x| x.iter().filter_map(|v| v.as_u64()).collect()).unwrap_or_default())
+                        .collect()
+                })
+                .unwrap_or_default();
+            // roots whose object was released by the caller are dropped first (a caller would not pass them)
+            let roots_now: Vec<usize> = w.roots.iter().cloned().filter(|h| w.model[*h].own != Own::Released).collect();
+            w.roots = roots_now.clone();
+            let mut slices: Vec<Vec<Object>> = Vec::new();
+            let mut used: Vec<usize> = Vec::new();
+            for s in &pattern {
+                let mut v = Vec::new();
+                for sel in s {
+                    if *sel == u64::MAX || roots_now.is_empty() {
+                        v.push(Object::int(7));
+                    } else {
+                        let h = roots_now[(*sel % roots_now.len() as u64) as usize];
+                        used.push(h);
+                        v.push(w.handles[h]);
+                    }
+                }
+                slices.push(v);
+            }
+            // every current root appears at least once: append the missing ones to the last slice
+            if slices.is_empty() {
+                slices.push(Vec::new());
+            }
+            for h in &roots_now {
+                if !used.contains(h) {
+                    let last = slices.len() - 1;
+                    slices[last].push(w.handles[*h]);
+                }
+            }
+            let before = w.model.iter().filter(|m| m.own == Own::Managed).count();
+            // model: managed objects not reachable from the roots are reclaimed
+            let reach = w.model_reachable(&roots_now);
+            // shape of the reachable graph (distinct-state measure)
+            let mut f = Fold::new();
+            for h in &reach {
+                let m = &w.model[*h];
+                f.u64(match &m.val {
+                    Val::F(_) => 1,
+                    Val::S(_) => 2,
+                    Val::A(v) => 3 + v.len() as u64 * 8,
+                });
+                f.u64(if m.own == Own::Managed { 1 } else { 2 });
+                if let Val::A(v) = &m.val {
+                    for e in v {
+                        f.u64(e.map(|x| x as u64 + 1).unwrap_or(0));
+                    }
+                }
+            }
+            f.u64(roots_now.len() as u64);
+            w.shapes.insert(f.0);
+            for i in 0..w.model.len() {
+                if w.model[i].own == Own::Managed && !reach.contains(&i) {
+                    w.model[i].own = Own::Released;
+                }
+            }
+            let after = w.model.iter().filter(|m| m.own == Own::Managed).count();
+            w.stats_freed += (before - after) as u64;
+            w.stats_collections += 1;
+            let refs: Vec<&[Object]> = slices.iter().map(|v| v.as_slice()).collect();
+            w.gc.as_mut().unwrap().run(&refs);
+        }
+        "untrace" => {
+            if w.gc.is_none() {
+                return;
+            }
+            if let Some(h) = w.pick(n(1), |m| m.own != Own::Released) {
+                let o = w.handles[h];
+                w.gc.as_mut().unwrap().untrace(o);
+                w.model_untrace(h);
+            }
+        }
+        "release" => {
+            // the caller releases one of its objects that no live array and no root refers to
+            let referenced: BTreeSet<usize> = {
+                let mut s: BTreeSet<usize> = w.roots.iter().cloned().collect();
+                for m in &w.model {
+                    if m.own != Own::Released {
+                        if let Val::A(v) = &m.val {
+                            for e in v.iter().flatten() {
+                                s.insert(*e);
+                            }
+                        }
+                    }
+                }
+                s
+            };
+            let c: Vec<usize> = (0..w.model.len())
+                .filter(|i| w.model[*i].own == Own::Caller && !referenced.contains(i))
+                .collect();
+            if !c.is_empty() {
+                let h = c[(n(1) % c.len() as u64) as usize];
+                let _g = sim::enter_harness();
+                w.handles[h].free();
+                w.model[h].own = Own::Released;
+            }
+        }
+        "adopt" => {
+            // an object made elsewhere (another collector, then handed over) is given to this collector
+            if w.gc.is_none() {
+                return;
+            }
+            let (o, val) = match n(1) % 3 {
+                0 => (Object::float(2.25, &mut w.side), Val::F(2.25)),
+                1 => (Object::string("adopted", &mut w.side), Val::S("adopted".into())),
+                _ => (Object::array(vec![Object::int(0), Object::int(1)], &mut w.side), Val::A(vec![None, None])),
+            };
+            w.side.untrace(o);
+            if n(2) % 2 == 0 {
+                w.gc.as_mut().unwrap().trace(o);
+            } else {
+                w.gc.as_mut().unwrap().maybe_trace(o);
+            }
+            w.handles.push(o);
+            w.model.push(MObj { val, own: Own::Managed });
+        }
+        "adopt-immediate" => {
+            // maybe_trace of an immediate value must be a no-op
+            if let Some(gc) = w.gc.as_mut() {
+                gc.maybe_trace(Object::int(n(1) as isize));
+                gc.maybe_trace(Object::null());
+                gc.maybe_trace(Object::bool(true));
+            }
+        }
+        "drop" => {
+            if let Some(gc) = w.gc.take() {
+                drop(gc);
+                sim::gc_drop_done();
+                for m in w.model.iter_mut() {
+                    if m.own == Own::Managed {
+                        m.own = Own::Released;
+                    }
+                }
+                w.roots.clear();
+            }
+        }
+        _ => {}
+    }
+}
+
+pub struct GcRun {
+    pub findings: Vec<Finding>,
+    pub collections: u64,
+    pub freed: u64,
+    pub shapes: Vec<u64>,
+    pub objects: usize,
+    pub log: u64,
+}
+
+pub fn run_ops(ops: &[Value]) -> GcRun {
+    // context: hooks record into this thread's Ctx
+    CTX.with(|c| {
+        let mut ctx = c.borrow_mut();
+        *ctx = sim::Ctx::new();
+        ctx.active = false;
+        ctx.eval_id = 1;
+    });
+    let mut w = World::new();
+    let mut log = Fold::new();
+    for op in ops {
+        apply(&mut w, op);
+        let name = op[0].as_str().unwrap_or("?").to_string();
+        w.check(&name);
+        log.str(&name);
+        log.u64(w.live().len() as u64);
+        if !w.findings.is_empty() {
+            break;
+        }
+    }
+    // end of scenario: drop the collector, the caller releases what it owns, nothing may remain
+    if w.findings.is_empty() {
+        apply(&mut w, &json!(["drop"]));
+        w.check("drop");
+    }
+    if w.findings.is_empty() {
+        let _g = sim::enter_harness();
+        for i in 0..w.model.len() {
+            if w.model[i].own == Own::Caller {
+                w.handles[i].free();
+                w.model[i].own = Own::Released;
+            }
+        }
+    }
+    if let Some(gc) = w.gc.take() {
+        drop(gc);
+        sim::gc_drop_done();
+    }
+    let hook_findings: Vec<Finding> = CTX.with(|c| std::mem::take(&mut c.borrow_mut().findings));
+    let mut findings = w.findings.clone();
+    findings.extend(hook_findings);
+    {
+        let mut sh = shadow::lock();
+        let leaked = sh.reset();
+        if leaked > 0 && findings.is_empty() {
+            findings.push(Finding {
+                class: "unreachable-retained".into(),
+                key: "end".into(),
+                detail: format!("{} object(s) still allocated after the collector was dropped and the caller released its objects", leaked),
+            });
+        }
+    }
+    crate::alloc::flush_parked();
+    log.u64(findings.len() as u64);
+    GcRun {
+        findings,
+        collections: w.stats_collections,
+        freed: w.stats_freed,
+        shapes: w.shapes.iter().cloned().collect(),
+        objects: w.model.len(),
+        log: log.0,
+    }
+}
+
+fn gen_ops(rng: &mut Rng) -> Vec<Value> {
+    let len = 4 + rng.usize(57);
+    let max_objects = 4 + rng.usize(13);
+    let mut ops: Vec<Value> = Vec::new();
+    let mut objects = 0usize;
+    // swarm weights
+    let w_alloc = 2 + rng.below(6) as u32;
+    let w_link = rng.below(6) as u32;
+    let w_unlink = rng.below(3) as u32;
+    let w_root = 1 + rng.below(5) as u32;
+    let w_unroot = rng.below(4) as u32;
+    let w_collect = 1 + rng.below(5) as u32;
+    let w_untrace = rng.below(3) as u32;
+    let w_release = rng.below(3) as u32;
+    let w_adopt = rng.below(2) as u32;
+    let w_drop = if rng.chance(1, 10) { 1 } else { 0 };
+    for _ in 0..len {
+        let w = [
+            if objects < max_objects { w_alloc } else { 0 },
+            w_link,
+            w_unlink,
+            w_root,
+            w_unroot,
+            w_collect,
+            w_untrace,
+            w_release,
+            if objects < max_objects { w_adopt } else { 0 },
+            w_drop,
+        ];
+        let op = match rng.weighted(&w) {
+            0 => {
+                objects += 1;
+                match rng.below(4) {
+                    0 => json!(["float", (rng.below(1000) as f64) / 8.0]),
+                    1 => json!(["str", *rng.pick(&["", "a", "hallo", "é日"])]),
+                    _ => {
+                        let n = rng.usize(4);
+                        let els: Vec<Value> = (0..n)
+                            .map(|_| if rng.chance(2, 3) { json!(rng.below(64)) } else { Value::Null })
+                            .collect();
+                        json!(["arr", els])
+                    }
+                }
+            }
+            1 => json!(["link", rng.below(64), rng.below(8), rng.below(64)]),
+            2 => json!(["unlink", rng.below(64), rng.below(8)]),
+            3 => json!(["root", rng.below(64)]),
+            4 => json!(["unroot", rng.below(64)]),
+            5 => {
+                let slices = 1 + rng.usize(4);
+                let pat: Vec<Value> = (0..slices)
+                    .map(|_| {
+                        let k = rng.usize(4);
+                        Value::Array(
+                            (0..k)
+                                .map(|_| if rng.chance(1, 6) { json!(u64::MAX) } else { json!(rng.below(64)) })
+                                .collect(),
+                        )
+                    })
+                    .collect();
+                let mut v = vec![json!(["collect", pat.clone()])];
+                if rng.chance(1, 5) {
+                    // twice in a row
+                    v.push(json!(["collect", pat]));
+                }
+                ops.extend(v);
+                continue;
+            }
+            6 => json!(["untrace", rng.below(64)]),
+            7 => json!(["release", rng.below(64)]),
+            8 => {
+                objects += 1;
+                if rng.chance(1, 4) {
+                    json!(["adopt-immediate", rng.below(100)])
+                } else {
+                    json!(["adopt", rng.below(3), rng.below(2)])
+                }
+            }
+            _ => json!(["drop"]),
+        };
+        ops.push(op);
+    }
+    ops
+}
+
+pub fn spec_of(ops: &[Value]) -> Value {
+    json!({"engine": "gc-sim", "kind": "gc-ops", "ops": ops})
+}
+
+pub fn scenario(acc: &mut Acc, seed: u64, index: u64, _tier: Tier) {
+    let s = mix(seed, TAG, index);
+    let mut rng = Rng::new(s);
+    let ops = gen_ops(&mut rng);
+    acc.begin(&spec_of(&ops));
+    sim::marker("GCSIM+");
+    let r = run_ops(&ops);
+    sim::marker("GCSIM-");
+    acc.count("gc_sequences", 1);
+    acc.count("gc_operations", ops.len() as u64);
+    acc.count("gc_collections", r.collections);
+    acc.count("gc_objects_reclaimed_by_collections", r.freed);
+    acc.count("gc_objects", r.objects as u64);
+    for op in &ops {
+        acc.count(&format!("gc_op:{}", op[0].as_str().unwrap_or("?")), 1);
+    }
+    for sh in &r.shapes {
+        acc.distinct("gc_reachable_shapes_at_collection", *sh);
+    }
+    if r.collections > 0 && r.objects > 1 {
+        acc.distinct("nontrivial_cases", r.log ^ s);
+    }
+    acc.sample(json!({"gc_ops": ops}));
+    for f in &r.findings {
+        if f.class.starts_with("harness:") {
+            acc.count("harness_findings", 1);
+            continue;
+        }
+        let mut sp = spec_of(&ops);
+        sp["expect"] = json!({"class": f.class, "key": f.key});
+        acc.violation(Violation {
+            property: PROPERTY.into(),
+            class: f.class.clone(),
+            key: f.key.clone(),
+            detail: f.detail.clone(),
+            spec: sp,
+            seed,
+            index,
+        });
+    }
+    acc.log(index, r.log);
+}
+
+pub fn replay(sp: &Value, _trace: bool) -> Vec<Finding> {
+    let ops: Vec<Value> = sp["ops"].as_array().cloned().unwrap_or_default();
+    run_ops(&ops).findings
+}
+
+/// Drop operations one at a time while the same violation persists (every op is meaningful on any
+/// world, so no re-validation is needed).
+pub fn shrink(sp: &Value, class: &str, key: &str) -> Value {
+    let mut ops: Vec<Value> = sp["ops"].as_array().cloned().unwrap_or_default();
+    let same = |ops: &[Value]| run_ops(ops).findings.iter().any(|f| f.class == class && f.key == key);
+    let mut changed = true;
+    let mut tries = 0;
+    while changed && tries < 3000 {
+        changed = false;
+        let mut i = 0;
+        while i < ops.len() {
+            tries += 1;
+            let mut c = ops.clone();
+            c.remove(i);
+            if same(&c) {
+                ops = c;
+                changed = true;
+            } else {
+                i += 1;
+            }
+        }
+    }
+    let mut out = sp.clone();
+    out["ops"] = Value::Array(ops);
+    out
 }
